@@ -70,3 +70,19 @@ Example C14_third_attempt_fails_in_a_string_object :
   | Flt _ => False
   end.
 Proof. vm_compute. auto. Qed.
+
+(* sbdf_va_create_bit (the bit-packed encoding): handle, scratch buffer, byte-array object, data block,
+   bytes - five allocation attempts.  For EVERY oracle: never a fault; on success only fresh blocks
+   (the scratch buffer is gone again) and nothing else touched; on any failure a non-OK status, a
+   null handle and the heap exactly as before. *)
+Theorem C14_bit_array_create : forall s src ty count blocks, fresh_inv s -> obj_at s src ty count blocks ->
+  match va_create_bit_m (Some src) s with
+  | Flt _ => False
+  | Val (st, p) s' =>
+    fresh_inv s' /\
+    ((st = SBDF_OK /\ exists h vblocks, p = Some h /\ va_at s' h SBDF_BINARYTYPEID 1 vblocks /\ all_fresh s vblocks /\
+        (forall x, ~ In x vblocks -> find x s' = find x s)) \/
+     (st <> SBDF_OK /\ p = None /\ same_heap s s'))
+  end.
+Proof. exact va_create_bit_spec. Qed.
+Print Assumptions C14_bit_array_create.
